@@ -114,6 +114,58 @@ def namesOKb (S : List (List Nat)) : Skel → Bool
   | .binder _ x body => NameOK S x && idShaped x && namesOKb S body
   | .ite c a b => namesOKb S c && namesOKb S a && namesOKb S b
 
+/-! matching a real line-broken text against `printTextW`: is it `printTextW sepB sepF [] t` for SOME
+separators with `SepOK`?  (After a separator the text never begins with whitespace, so the separator
+is the maximal whitespace run.) -/
+def eatPrefix (p cs : List Nat) : Option (List Nat) := if p.isPrefixOf cs then some (cs.drop p.length) else none
+def eatSepB : List Nat → Option (List Nat)
+  | 32 :: r => some (r.dropWhile isWs)
+  | _ => none
+def eatSepF : List Nat → Option (List Nat)
+  | c :: r => if isWs c then some (r.dropWhile isWs) else none
+  | [] => none
+
+mutual
+partial def matchW (uni : Bool) : Skel → List Nat → Option (List Nat)
+  | .atom s, cs => eatPrefix s cs
+  | .app f a, cs => do
+    let r ← matchWrap uni (brF Gen.table f.cls) f cs
+    let r ← eatSepB r
+    matchWrap uni (brA Gen.table a.cls) a r
+  | .bin o l r, cs => do
+    let x ← matchWrap uni (brL Gen.table o l.cls) l cs
+    let x ← eatSepB x
+    let x ← eatPrefix (Gen.table.spellTxt uni o) x
+    let x ← eatSepB x
+    matchWrap uni (brR Gen.table o r.cls) r x
+  | .un o a, cs => do
+    let x ← eatPrefix (Gen.table.spellTxt uni o) cs
+    matchWrap uni (brU Gen.table o a.cls) a x
+  | .binder b x body, cs => do
+    let r ← eatPrefix (binderTxt Gen.table Gen.ladder uni b) cs
+    let r ← eatPrefix x r
+    let r ← eatPrefix [46, 32] r
+    matchW uni body r
+  | .ite c a b, cs => do
+    let r ← eatPrefix kwIf cs
+    let r ← eatSepB r
+    let r ← matchW uni c r
+    let r ← eatSepB r
+    let r ← eatPrefix kwThen r
+    let r ← eatSepB r
+    let r ← matchW uni a r
+    let r ← eatSepF r
+    let r ← eatPrefix kwElse r
+    let r ← eatSepB r
+    matchW uni b r
+partial def matchWrap (uni : Bool) (b : Bool) (t : Skel) (cs : List Nat) : Option (List Nat) :=
+  if b then do
+    let r ← eatPrefix [40] cs
+    let r ← matchW uni t r
+    eatPrefix [41] r
+  else matchW uni t cs
+end
+
 def handle (line : String) : String :=
   match Sexp.parse line with
   | some (.list [.atom "print", u, t]) =>
@@ -134,6 +186,10 @@ def handle (line : String) : String :=
   | some (.list [.atom "printtext", u, t]) =>
     match u.toBool?, skelOf t with
     | some uni, some sk => enc (ofCodes (printText Gen.table Gen.ladder uni sk))
+    | _, _ => "bad-op"
+  | some (.list [.atom "matchbroken", u, t, .atom s]) =>
+    match u.toBool?, skelOf t with
+    | some uni, some sk => toString (Sexp.ofBool (matchW uni sk (toCodes (dec s)) == some []))
     | _, _ => "bad-op"
   | some (.list [.atom "namesok", t]) =>
     match skelOf t with
